@@ -288,6 +288,25 @@ func buildLabBatch(args map[string]string, dirName string, withFaults bool) (*la
 		lab.Close()
 		return nil, err
 	}
+	if args["ext"] == "1" {
+		var g strings.Builder
+		g.WriteString("package pingext\n\nimport \"" + labGoModule + "/labrt\"\n\nfunc init() {\n")
+		for _, c := range b.cases {
+			if c.Defs != nil {
+				fmt.Fprintf(&g, "\tlabrt.Register(%q, %q, \"ping\", func(p []string) string { return \"pong \" + p[0] })\n", c.ID, c.Defs.Root)
+			}
+		}
+		g.WriteString("}\n")
+		lab.AddGoExt("pingext", map[string]string{"ping.go": g.String()})
+		lab.AddGoExt("brokenext", map[string]string{"b.go": "package brokenext\n\nfunc init() { undefinedSymbol() }\n"})
+		var py strings.Builder
+		for _, c := range b.cases {
+			if c.Defs != nil {
+				fmt.Fprintf(&py, "register(%q, %q, \"ping\", lambda p: \"pong \" + p[0])\n", c.ID, c.Defs.Root)
+			}
+		}
+		lab.AddPyExt("ping", py.String())
+	}
 	t1 := time.Now()
 	if err := lab.Build(); err != nil {
 		lab.Close()
@@ -323,6 +342,7 @@ func init() {
 			}
 		}
 		var goReqs, pyReqs []LabReq
+		pairKinds := map[string]int{}
 		for _, c := range b.cases {
 			k := cs[c.Format]
 			if k == nil {
@@ -381,11 +401,38 @@ func init() {
 			}
 			for _, d := range b.docs[c.ID] {
 				if c.GoOK {
-					goReqs = append(goReqs, LabReq{c.ID, c.Defs.Root, "dec", []string{d.json()}}, LabReq{c.ID, c.Defs.Root, "strict", []string{d.json()}})
+					goReqs = append(goReqs, LabReq{c.ID, c.Defs.Root, "dec", []string{d.json()}}, LabReq{c.ID, c.Defs.Root, "strict", []string{d.json()}},
+						LabReq{c.ID, c.Defs.Root, "validate", []string{d.json()}})
 				}
 				if c.PyOK {
 					pyReqs = append(pyReqs, LabReq{c.ID, c.Defs.Root, "roundtrip", []string{d.json()}})
 				}
+			}
+			if c.GoOK {
+				for _, fd := range b.fault[c.ID] {
+					goReqs = append(goReqs, LabReq{c.ID, c.Defs.Root, "strict", []string{fd.Doc.json()}}, LabReq{c.ID, c.Defs.Root, "validate", []string{fd.Doc.json()}})
+				}
+				dg := newDocGen(c.Defs, newRng(uint64(c.Idx)+99), defaultDocOpts())
+				for k := 0; k < 6; k++ {
+					if p, ok := dg.pair(""); ok {
+						pairKinds[p.Kind]++
+						goReqs = append(goReqs, LabReq{c.ID, c.Defs.Root, "equals", []string{p.A.json(), p.B.json()}})
+					}
+				}
+				tr := dg.triple()
+				goReqs = append(goReqs, LabReq{c.ID, c.Defs.Root, "equals", []string{tr.A.json(), tr.C.json()}})
+				for _, o := range c.GoObjects {
+					goReqs = append(goReqs, LabReq{c.ID, o.Name, "new", nil})
+				}
+			}
+			if c.PyOK {
+				for _, o := range c.PyObjects {
+					pyReqs = append(pyReqs, LabReq{c.ID, o.Name, "new", nil})
+				}
+			}
+			if args["ext"] == "1" {
+				goReqs = append(goReqs, LabReq{c.ID, c.Defs.Root, "ping", []string{"x"}})
+				pyReqs = append(pyReqs, LabReq{c.ID, c.Defs.Root, "ping", []string{"x"}})
 			}
 		}
 		t1 := time.Now()
@@ -394,12 +441,16 @@ func init() {
 		t2 := time.Now()
 		pyRep := b.lab.PyCall(pyReqs)
 		tp := time.Since(t2)
-		replyClass := func(reps []string) map[string]int {
+		replyClass := func(reqs []LabReq, reps []string) string {
 			m := map[string]int{}
-			for _, r := range reps {
-				m[strings.SplitN(r, " ", 2)[0]]++
+			for i, r := range reps {
+				m[reqs[i].Op+":"+strings.SplitN(r, " ", 2)[0]]++
 			}
-			return m
+			parts := []string{}
+			for _, k := range labSortedKeys(m) {
+				parts = append(parts, fmt.Sprintf("%s=%d", k, m[k]))
+			}
+			return strings.Join(parts, " ")
 		}
 		for _, f := range labFormats {
 			if k := cs[f]; k != nil {
@@ -430,8 +481,28 @@ func init() {
 		for _, k := range labSortedKeys(notes) {
 			fmt.Fprintf(out, "LOSSY-NOTE %s cases=%d\n", k, notes[k])
 		}
-		fmt.Fprintf(out, "GO-REPLIES n=%d %v\n", len(goRep), replyClass(goRep))
-		fmt.Fprintf(out, "PY-REPLIES n=%d %v\n", len(pyRep), replyClass(pyRep))
+		fmt.Fprintf(out, "GO-REPLIES n=%d %s\n", len(goRep), replyClass(goReqs, goRep))
+		fmt.Fprintf(out, "PY-REPLIES n=%d %s\n", len(pyRep), replyClass(pyReqs, pyRep))
+		fmt.Fprintf(out, "PAIR-KINDS %v\n", pairKinds)
+		if args["errs"] == "1" {
+			seen := map[string]int{}
+			dump := func(lang string, reqs []LabReq, reps []string) {
+				for i, r := range reps {
+					if strings.HasPrefix(r, "ok") || r == "true" || r == "false" || r == "unsupported" || strings.HasPrefix(r, "pong") {
+						continue
+					}
+					k := lang + " " + reqs[i].Op + " " + labClassOf(r)
+					if seen[k]++; seen[k] <= 1 {
+						fmt.Fprintf(out, "REPLY %s %s -> %s\n", lang, reqs[i].line(), r)
+					}
+				}
+			}
+			dump("go", goReqs, goRep)
+			dump("py", pyReqs, pyRep)
+			for _, k := range labSortedKeys(seen) {
+				fmt.Fprintf(out, "REPLY-CLASS n=%d %s\n", seen[k], k)
+			}
+		}
 		hs := []string{}
 		for _, k := range labSortedKeys(b.hist) {
 			hs = append(hs, fmt.Sprintf("%s=%d", k, b.hist[k]))
@@ -447,6 +518,9 @@ func init() {
 		}
 		for _, w := range b.lab.Warnings {
 			fmt.Fprintf(out, "WARNING %s\n", w)
+		}
+		if args["ext"] == "1" {
+			fmt.Fprintf(out, "EXT pingext err=%q brokenext err=%q\n", b.lab.GoExtErr("pingext"), labFirstLine(b.lab.GoExtErr("brokenext")))
 		}
 		fmt.Fprintf(out, "TIMING generate+docs=%.1fs build(write+go build+py import)=%.1fs [lab: %v] gocall=%.1fs pycall=%.1fs total=%.1fs\n",
 			b.t["generate+docs"].Seconds(), b.t["build"].Seconds(), fmtTimings(b.lab.Timings), tg.Seconds(), tp.Seconds(), time.Since(t0).Seconds())
